@@ -511,6 +511,7 @@ class Interp:
             self.stack.pop()
         if isinstance(v, (list, dict, set)):
             cache[id(dnode)] = (dnode, v)
+            self.__dict__.setdefault("_global_containers", set()).add(id(v))
         return v
 
     # --------------------------------------------------------- statements
@@ -856,6 +857,10 @@ class Interp:
             if isinstance(c, dict):
                 k = self.eval(target.slice, fr)
                 self.check_owned_container(c, target, fr, "store")
+                if isinstance(v, TV) and v.fresh and self.world is not None and hasattr(self.world, "is_element_dict") \
+                        and self.world.is_element_dict(c):
+                    # an array published as an element's (next) state belongs to whoever reads it there
+                    v = TV(v.t, v.rank, False, v.origin or f"element variable `{k}`")
                 c[k] = v
                 return
             if isinstance(c, TV):
@@ -870,8 +875,16 @@ class Interp:
         raise self.err(target, "unsupported assignment target")
 
     def check_owned_container(self, c, node, fr, how):
+        self.global_state_store(c, node)
         if self.world is not None:
             self.world.on_container_mutation(self, c, node, how)
+
+    def global_state_store(self, c, node):
+        """a container that lives at module / class level, or is the default value of a parameter,
+        is modified: state that survives the call and is shared by every caller"""
+        if id(c) in self.__dict__.get("_global_containers", ()):
+            self.event("global-state-store", node, f"`{short(node, 60)}` modifies a module-level / class-level / "
+                                                   "default-argument container: state kept between calls")
 
     def aug_assign(self, st: ast.AugAssign, fr: Frame):
         rhs = self.eval(st.value, fr)
@@ -944,6 +957,11 @@ class Interp:
             )
         sl = target.slice
         v = self.to_tv(v, target)
+        if isinstance(sl, ast.Constant) and sl.value is Ellipsis:
+            # x[...] = v overwrites the whole array in place (the non-fresh case was reported above)
+            newv = self.binop(aug, c, v, target) if aug is not None else v
+            fr.env[name] = TV(newv.t, c.rank, c.fresh, c.origin)
+            return
         if isinstance(sl, ast.Slice):
             lo = self._const_int(sl.lower, fr)
             hi = self._const_int(sl.upper, fr)
@@ -1114,6 +1132,8 @@ class Interp:
             val = Builtin(f"<module-object {name}>")
         finally:
             self.stack.pop()
+        if isinstance(val, (dict, list, set)):
+            self.__dict__.setdefault("_global_containers", set()).add(id(val))
         memo[key] = val
         return val
 
@@ -1155,10 +1175,19 @@ class Interp:
         return d
 
     def e_Set(self, n, fr):
-        return set(self._elts(n.elts, fr))
+        items = self._elts(n.elts, fr)
+        self._value_set(items, n)
+        return set(items)
+
+    def _value_set(self, items, n):
+        if any(isinstance(x, TV) or (isinstance(x, FamItem) and isinstance(x.term, TV)) for x in items):
+            self.event("value-set", n, f"`{short(n, 60)}` puts model quantities into a set: members with equal values "
+                                       "collapse (and NumPy arrays are not hashable)")
 
     def e_SetComp(self, n, fr):
-        return set(self._comp(n, fr, lambda f: self.eval(n.elt, f)))
+        items = self._comp(n, fr, lambda f: self.eval(n.elt, f))
+        self._value_set(items, n)
+        return set(items)
 
     def e_JoinedStr(self, n, fr):
         parts = []
@@ -1247,6 +1276,11 @@ class Interp:
         raise self.err(node, f"{type(v).__name__} used in arithmetic")
 
     def binop(self, op, a, b, node):
+        if isinstance(a, (set, frozenset, KeysV)) and isinstance(b, (set, frozenset, KeysV)):
+            fa, fb = frozenset(a), frozenset(b)
+            r = {ast.BitOr: fa | fb, ast.BitAnd: fa & fb, ast.Sub: fa - fb, ast.BitXor: fa ^ fb}.get(type(op))
+            if r is not None:
+                return r
         if isinstance(a, (int, float)) and isinstance(b, (int, float)) and not isinstance(a, bool) and not isinstance(b, bool):
             try:
                 if isinstance(op, ast.Add):
@@ -1332,6 +1366,10 @@ class Interp:
                 elif isinstance(a, bool) and isinstance(b, bool):
                     same = a == b
             return same if isinstance(op, ast.Is) else not same
+        if isinstance(op, (ast.Is, ast.IsNot)) and isinstance(a, (str, int, float)) and isinstance(b, (str, int, float)) \
+                and not isinstance(a, bool) and not isinstance(b, bool):
+            self.event("value-identity", node, f"`{short(node, 60)}` compares values by identity: an equal string / number "
+                                               "created at run time is a different object")
         if isinstance(op, (ast.In, ast.NotIn)):
             r = self.contains(b, a, node, fr)
             return r if isinstance(op, ast.In) else not r
@@ -1561,6 +1599,8 @@ class Interp:
                 return o
             if attr == "copy":
                 return _Const(TV(o.t, o.rank, True, ""))
+            if self.lib == "numpy" and attr == "ndim":
+                return 0 if o.rank == 0 else 1
             if self.lib == "numpy" and attr == "dtype":
                 return DTypeV(o)
             if self.lib == "numpy" and attr == "astype":
@@ -1672,6 +1712,7 @@ class Interp:
             memo = self.__dict__.setdefault("_classvals", {})
             if id(ca) not in memo:
                 memo[id(ca)] = (ca, {})
+                self.__dict__.setdefault("_global_containers", set()).add(id(memo[id(ca)][1]))
             return memo[id(ca)][1]
         # anything else (a tuple of names, a call of a factory, property(...), ...) is evaluated
         # once in the scope of the class body
@@ -1689,6 +1730,8 @@ class Interp:
             v = self.eval(ca, fr2)
         finally:
             self.stack.pop()
+        if isinstance(v, (dict, list, set)):
+            self.__dict__.setdefault("_global_containers", set()).add(id(v))
         memo[id(ca)] = (ca, v)
         return v
 
@@ -2263,6 +2306,8 @@ class Interp:
             raise self.err(n, "range over a non-constant")
         if name in ("float", "int", "bool", "abs", "round"):
             v = args[0] if args else 0
+            if isinstance(v, TV) and name == "float" and self.lib == "numpy" and self._is_scalar(v):
+                return TV(v.t, 0, True, v.origin)  # a NumPy value is a number: float() keeps it
             if isinstance(v, TV):
                 self.event("symbolic-truth", n, f"python {name}() applied to a symbolic quantity ({E.fmt(v.t, 60)})")
                 raise self.err(n, f"{name}() of a symbolic value")
@@ -2323,7 +2368,9 @@ class Interp:
         if name == "print":
             return None
         if name == "set":
-            return set(self.iterate(args[0], n, fr)) if args else set()
+            items = self.iterate(args[0], n, fr) if args else []
+            self._value_set(items, n)
+            return set(items)
         if name == "frozenset":
             return frozenset(self.iterate(args[0], n, fr)) if args else frozenset()
         raise self.err(n, f"builtin {name} is not modelled")
@@ -2542,12 +2589,17 @@ class Interp:
             out = []
             for a in args:
                 out.extend(self.star_items(a, n, fr))
-            return out
+            return IterV(out) if not any(isinstance(x, FamItem) for x in out) else out  # (a one-shot iterator)
         if name == "itertools.chain.from_iterable":
             out = []
             for a in self.iterate(args[0], n, fr):
                 out.extend(self.star_items(a, n, fr))
-            return out
+            return IterV(out) if not any(isinstance(x, FamItem) for x in out) else out
+        if name in ("weakref.WeakKeyDictionary", "weakref.WeakValueDictionary", "collections.OrderedDict") and not args:
+            d = {}
+            if self.world is not None:
+                self.world.on_new_container(self, d, n)
+            return d
         if name == "itertools.product":
             import itertools as _it
 
@@ -2687,6 +2739,8 @@ class BoundListMethod:
     name: str
 
     def call(self, it: Interp, args, kwargs, n, fr):
+        if self.name in ("append", "extend", "insert", "pop", "clear", "remove", "sort", "reverse"):
+            it.global_state_store(self.l, n)
         if self.name == "append":
             self.l.append(args[0])
             return None
@@ -2720,6 +2774,8 @@ class BoundSetMethod:
     def call(self, it: Interp, args, kwargs, n, fr):
         if self.name in ("add", "discard", "remove", "update", "clear", "pop") and isinstance(self.s, frozenset):
             raise Raised("AttributeError", n, fr.fi, f"frozenset has no {self.name}")
+        if self.name in ("add", "discard", "remove", "update", "clear", "pop"):
+            it.global_state_store(self.s, n)
         if self.name == "update":
             for a in args:
                 self.s.update(it.iterate(a, n, fr))
